@@ -44,6 +44,7 @@ def configs(draw, d, networks=(0, 0, 0, 1), periodic_ok=True, pools=('none',),
         n_shell=draw(st.sampled_from([1, 1, 3, 10])),
         n_eff=draw(st.sampled_from([0, 50, 200, 500])),
         discard_exploration=draw(st.booleans()))
+    cfg['ext'] = draw(st.sampled_from(['hdf5', 'hdf5', 'h5', 'dots']))
     if cfg['n_networks'] > 0:
         # non-default MLPRegressor keyword (documented neural_network_kwargs)
         cfg['nn'] = draw(st.sampled_from(['tiny', 'tiny', 'tanh']))
@@ -52,6 +53,13 @@ def configs(draw, d, networks=(0, 0, 0, 1), periodic_ok=True, pools=('none',),
             st.integers(0, d - 1), min_size=1, max_size=min(d, 2),
             unique=True)))
     return cfg
+
+
+def ckpt_name(cfg):
+    """File name of the checkpoint: both documented extensions and a name
+    with inner dots are legal."""
+    return {'h5': 'ckpt.h5', 'dots': 'run.v1.hdf5.h5'}.get(
+        cfg.get('ext'), 'ckpt.hdf5')
 
 
 def run_kwargs(cfg, **over):
@@ -102,7 +110,7 @@ class Lab:
         if use_file:
             self.workdir = workdir or tempfile.mkdtemp(
                 prefix='nvlab-', dir=os.environ.get('NV_SCRATCH') or None)
-            self.filepath = os.path.join(self.workdir, 'ckpt.hdf5')
+            self.filepath = os.path.join(self.workdir, ckpt_name(cfg))
         self.pool_objs = []
         self.n_bound_attempts = 0
         self.n_batches = 0
@@ -211,7 +219,7 @@ class Lab:
         as it is right now (the live object is untouched).  No pools."""
         from nautilus import Sampler
         d = tempfile.mkdtemp(prefix='nvpeek-', dir=self.workdir)
-        f = os.path.join(d, 'ckpt.hdf5')
+        f = os.path.join(d, ckpt_name(self.cfg))
         shutil.copyfile(self.filepath, f)
         cfg, spec = self.cfg, self.spec
         kw = dict(
